@@ -224,7 +224,7 @@ class Triage:
     def report(self, replay_dir: str | None = None) -> tuple[int, int, list[str]]:
         """Print lines; returns (violations, known, lines)."""
         known = {k["fingerprint"]: k for k in load_known().get("findings", []) if k.get("property") == self.prop}
-        replay_dir = replay_dir or os.path.join(ROOT, "replays", self.prop)
+        replay_dir = replay_dir or os.path.join(os.environ.get("VERIF_REPLAY_DIR") or os.path.join(ROOT, "replays"), self.prop)
         lines = []
         nv = nk = 0
         for key in sorted(self.shapes, key=lambda k: (k[0], k[1], k[2])):
